@@ -81,6 +81,46 @@ pub fn run(data: &[u8], ctx: &mut Ctx) -> Outcome {
         check!(ctx, d4.is_identical_to(&e), "ur-route", "C05/ur-route", "UR round trip is not identical");
         ctx.class("ur-route");
     }
+    // history independence (drawn last): decoding is a function of the bytes alone, so the round trip
+    // holds just the same after this thread has been handed a few hundred inputs the decoder refuses
+    // (well-formed dCBOR that is not an envelope: one-element node, bare integer as an assertion,
+    // unknown tag, map of bare integers - each wrapped around this envelope's own encoding)
+    if src.chance(14) {
+        let u = m.untagged();
+        let mut refused = 0usize;
+        for i in 0..320usize {
+            let mut bad: Vec<u8> = vec![0xd8, 0xc8];
+            match i % 4 {
+                0 => {
+                    bad.push(0x81);
+                    bad.extend(&u);
+                }
+                1 => {
+                    bad.push(0x82);
+                    bad.extend(&u);
+                    bad.push((i / 4 % 24) as u8);
+                }
+                2 => {
+                    bad.extend([0xda, 0x00, 0x01, 0x86, 0x9f]);
+                    bad.extend(&u);
+                }
+                _ => {
+                    bad.extend([0xa1, (i / 4 % 24) as u8, 0x00]);
+                }
+            }
+            let r = nopanic!(ctx, Envelope::try_from_cbor_data(bad), "history", "C05/after-refused-inputs");
+            if r.is_err() {
+                refused += 1;
+            }
+        }
+        ctx.class("after-refused-inputs");
+        let again = nopanic!(ctx, Envelope::try_from_cbor_data(b.clone()), "history", "C05/after-refused-inputs");
+        let again = tryp!(ctx, again.map_err(|x| format!("after {} refused inputs on this thread, decoding the envelope's own encoding fails: {} ({})", refused, x, hex::encode(&b))), "history", "C05/after-refused-inputs");
+        check!(ctx, again.to_cbor_data() == b && again.is_identical_to(&e), "history", "C05/after-refused-inputs", "after {} refused inputs the decoded envelope differs", refused);
+        let ur = nopanic!(ctx, e.ur_string(), "history", "C05/after-refused-inputs");
+        let again = nopanic!(ctx, Envelope::from_ur_string(&ur), "history", "C05/after-refused-inputs");
+        check!(ctx, again.is_ok(), "history", "C05/after-refused-inputs", "after {} refused inputs the UR string no longer decodes", refused);
+    }
     if model.count_obscured() > 0 {
         ctx.class("obscured>=1");
     }
